@@ -765,6 +765,55 @@ func runC12(c *core.Ctx, o Options) {
 				}
 			}
 		})
+		// table form: the qualifier/import pairs live in a package-level table and makeFile (or a helper cut out of it) walks it
+		// with strings.Contains(data, <entry's qualifier>) — the pairs are read from the table's initialisation
+		{
+			tableWalk := false
+			for _, f := range append([]*ssa.Function{mf}, pkgHelpersOf(mf)...) {
+				an.AllInstrs(f, func(in ssa.Instruction) {
+					if call, ok := in.(*ssa.Call); ok && an.CalleeIs(&call.Call, "strings", "Contains") {
+						if _, isS := an.ConstString(call.Call.Args[1]); !isS && inLoop(call.Block()) {
+							tableWalk = true
+						}
+					}
+				})
+			}
+			if init := mf.Pkg.Func("init"); tableWalk && init != nil {
+				// consecutive constant stores into fields of one table element: qualifier, then import line
+				type pair struct{ q, line string }
+				byElem := map[ssa.Value][]string{}
+				var order []ssa.Value
+				an.AllInstrs(init, func(in ssa.Instruction) {
+					st, ok := in.(*ssa.Store)
+					if !ok {
+						return
+					}
+					v, isS := an.ConstString(st.Val)
+					fa, isFA := st.Addr.(*ssa.FieldAddr)
+					if !isS || !isFA {
+						return
+					}
+					if _, seen := byElem[fa.X]; !seen {
+						order = append(order, fa.X)
+					}
+					byElem[fa.X] = append(byElem[fa.X], v)
+				})
+				for _, e := range order {
+					vals := byElem[e]
+					for _, a := range vals {
+						if !strings.HasSuffix(a, ".") {
+							continue
+						}
+						q := strings.TrimSuffix(a, ".")
+						for _, b := range vals {
+							if strings.HasSuffix(b, "/"+q+`"`) || b == `"`+q+`"` {
+								tested[q] = true
+							}
+						}
+					}
+				}
+			}
+		}
 		for _, q := range an.SortedKeys(quals) {
 			c.Check(tested[q], "i", "makeFile", "package "+q+" is imported when the generated text mentions it", mf.Pos(), `strings.Contains(data, "`+q+`.") ⇒ import`,
 				"generated code can mention "+q+". ("+quals[q]+") but makeFile never adds an import for it: with a schema or type mapping that makes it appear, the emitted package does not compile")
